@@ -328,7 +328,7 @@ struct Run{
       else{
         unsigned stride2=d2*d2*r2+s2; long bid; int ub; size_t off;
         if(old->rho_dim(0,0)!=d2 || alloc_classify(old->rho_ptr(0,0),(size_t)stride2*n2*sizeof(double),&bid,&ub,&off)!=RANGE_LIB_BLOCK)
-          c.violation("C10","views:storage","moved-from","after re-initialising a moved-from solver its state does not lie in a live block of its own");
+          c.violation(prop=="C15"?"C15":"C10","views:storage","moved-from","after re-initialising a moved-from solver its state does not lie in a live block of its own");   // "a fresh state" (C10) that is also memory the object does not own (C15)
         else{
           bool same=true;
           lib_call([&]{
